@@ -72,6 +72,11 @@ claim('C15', 'Hypothesis Euler angles with exact / near gimbal-lock classes, qua
       '(SU(2) up to sign); su2_to_so3 is checked as the two-to-one homomorphism through U sigma U^dagger; D^j against exp(-i a Jz) exp(-i b Jy) exp(-i g Jz); CG through orthogonality and intertwining.',
       'trusted: vf spin_ops (textbook ladder formulas), numpy eigh-based exponentials; tolerance 5e-6 on round trips (gimbal threshold 1e-7 inherent)')
 
+claim('C18', 'enumeration of kets / UPB kinds and sizes / POVMs / Chebyshev bases + Hypothesis floats over the documented parameter ranges incl. end points and thresholds (coverage guard via dir()); oracle: explicit amplitudes, density-matrix predicates, symmetry, own partial transpose, literature formulas measured on the state',
+      'Every public constructor of numqi.state and every implemented load_upb kind is exercised over its size arguments; continuous families over their whole range with end points and points 1e-9 around the '
+      'separable thresholds; closed forms are checked for exact zeros, finiteness, continuity, monotonicity and against independent literature formulas / generic two-qubit routines.',
+      'trusted: vf/ref.py partial_transpose; Horodecki matrices and Terhal-Vollbrecht / Wei-Goldbart formulas re-implemented from the papers cited in the docstrings')
+
 NOT_YET = 'check not built yet in this session (work in progress; see DESIGN.md section 4 for the planned generator and oracle)'
 
 ALL = [f'C{i:02d}' for i in range(1, 21)]
